@@ -160,7 +160,13 @@ pub fn run(ctx: &Ctx, rep: &mut Report) {
                     1 => Via::Line,
                     _ => {
                         if l % 8 == 0 {
-                            Via::Raw
+                            // whole bytes: the raw buffer through `messages::parse` or through
+                            // the per-type `AisMessageType::parse`
+                            if c % 2 == 0 {
+                                Via::Raw
+                            } else {
+                                Via::Direct
+                            }
                         } else {
                             Via::Armor
                         }
